@@ -199,7 +199,7 @@ func (w *World) monRedirect(rec *CheckRec) {
 		w.violate("C05", "presented-session-survives-redirect", fmt.Sprintf("check #%d: store still holds the presented session after the login redirect", rec.N))
 	}
 	// -- the Location, parsed by the strict provider-side parser (dry run: no code is issued)
-	ar := f.IdP.parseAuth(rec.Location)
+	ar := f.ParseAuth(rec.Location)
 	if len(ar.Problems) > 0 {
 		w.violate("C13", "authorization-request-malformed:"+problemKinds(ar.Problems), fmt.Sprintf("check #%d Location %q: %s", rec.N, rec.Location, sortedProblems(ar.Problems)))
 	}
